@@ -94,6 +94,8 @@ CORPUS = {
     'P23b_switch_in_rec_new_case_fails': json.loads(r'''{"input": 0, "input_kwargs": {"x": "v"}, "nodes": [{"attempts": null, "body": {"kind": "prov"}, "delay": null, "exceptions": null, "fails": [], "has_additional": false, "is_rec": false, "marks": [], "mode": "coro", "name": "N0", "plain": ["x"], "recur_k": 0, "use_default": false}, {"attempts": null, "body": {"kind": "prov"}, "delay": null, "exceptions": null, "fails": [], "has_additional": true, "is_rec": false, "marks": [], "mode": "coro", "name": "N1", "plain": [], "recur_k": 0, "use_default": false}, {"attempts": null, "body": {"kind": "labels", "v": ["l0", "l1"]}, "delay": null, "exceptions": null, "fails": [], "has_additional": false, "is_rec": false, "marks": [["a", {"kind": "input", "src": 1}]], "mode": "coro", "name": "N2", "plain": [], "recur_k": 0, "use_default": false}, {"attempts": null, "body": {"kind": "prov"}, "delay": null, "exceptions": null, "fails": [], "has_additional": false, "is_rec": false, "marks": [], "mode": "coro", "name": "N3", "plain": [], "recur_k": 0, "use_default": false}, {"attempts": null, "body": {"kind": "prov"}, "delay": null, "exceptions": null, "fails": [[0, 1, "E0"]], "has_additional": false, "is_rec": false, "marks": [], "mode": "coro", "name": "N4", "plain": [], "recur_k": 0, "use_default": false}, {"attempts": null, "body": {"kind": "prov"}, "delay": null, "exceptions": null, "fails": [], "has_additional": false, "is_rec": false, "marks": [["a", {"cases": [["l0", 3], ["l1", 4]], "decider": 2, "kind": "switch", "name": "sw0"}]], "mode": "coro", "name": "N5", "plain": [], "recur_k": 0, "use_default": false}, {"attempts": null, "body": {"kind": "prov"}, "delay": null, "exceptions": null, "fails": [], "has_additional": false, "is_rec": true, "marks": [["a", {"kind": "input", "src": 5}]], "mode": "coro", "name": "N6", "plain": [], "recur_k": 1, "use_default": false}, {"attempts": null, "body": {"kind": "prov"}, "delay": null, "exceptions": null, "fails": [], "has_additional": false, "is_rec": false, "marks": [["a", {"dest": 6, "kind": "rec", "max": 2, "start": 1}]], "mode": "coro", "name": "N7", "plain": [], "recur_k": 0, "use_default": false}], "output": 7}'''),
     'P24_oneof_in_rec_candidate_fails_on_restart': json.loads(r'''{"cb": {"ncomplete": {"0": 2, "1": 2, "3": 2}, "nstart": {"1": 1, "3": 2, "5": 1}, "pcomplete": 1, "pstart": 1, "save": {"3": 1, "4": 1}}, "input": 0, "input_kwargs": {"x": "w"}, "nodes": [{"attempts": null, "body": {"kind": "prov"}, "delay": null, "exceptions": null, "fails": [], "has_additional": false, "is_rec": false, "marks": [], "mode": "coro", "name": "N0", "plain": ["x"], "recur_k": 0, "use_default": false}, {"attempts": 1, "body": {"kind": "const", "v": ""}, "delay": null, "exceptions": ["E0", "E2"], "fails": [], "has_additional": false, "is_rec": false, "marks": [["a", {"kind": "input", "src": 0}]], "mode": "coro", "name": "N1", "plain": [], "recur_k": 0, "use_default": false}, {"attempts": null, "body": {"kind": "prov"}, "delay": null, "exceptions": null, "fail_hash": [2, 1, "E1"], "fails": [], "has_additional": true, "is_rec": false, "marks": [["a", {"kind": "input", "src": 0}], ["b", {"cands": [1], "kind": "oneof"}]], "mode": "coro", "name": "N2", "plain": [], "recur_k": 0, "use_default": false}, {"attempts": 1, "body": {"kind": "prov"}, "delay": null, "exceptions": ["E1"], "fails": [], "has_additional": false, "is_rec": false, "marks": [["a", {"kind": "input", "src": 0}]], "mode": "coro", "name": "N3", "plain": [], "recur_k": 0, "use_default": false}, {"attempts": 2, "body": {"kind": "prov"}, "delay": 0, "exceptions": ["E2"], "fails": [], "has_additional": false, "is_rec": false, "marks": [["a", {"cands": [2, 3], "kind": "oneof"}]], "mode": "coro", "name": "N4", "plain": [], "recur_k": 0, "use_default": false}, {"attempts": null, "body": {"kind": "prov"}, "delay": null, "exceptions": null, "fails": [], "has_additional": false, "is_rec": true, "marks": [["a", {"cands": [4], "kind": "oneof"}]], "mode": "coro", "name": "N5", "plain": [], "recur_k": 1, "use_default": true}, {"attempts": null, "body": {"kind": "prov"}, "delay": null, "exceptions": null, "fails": [], "has_additional": false, "is_rec": false, "marks": [["a", {"dest": 5, "kind": "rec", "max": 3, "start": 2}]], "mode": "coro", "name": "N6", "plain": [], "recur_k": 0, "use_default": false}], "output": 6}'''),
     'P24b_oneof_in_rec_unneeded_candidate_runs': json.loads(r'''{"cb": {"ncomplete": {"1": 1, "6": 1}, "nstart": {"0": 1, "2": 1, "3": 1, "4": 1, "7": 1}, "pcomplete": 0, "pstart": 0, "save": {"0": 1, "1": 1, "4": 1}}, "input": 0, "input_kwargs": {"x": "w"}, "nodes": [{"attempts": null, "body": {"kind": "prov"}, "delay": null, "exceptions": null, "fails": [], "has_additional": false, "is_rec": false, "marks": [], "mode": "coro", "name": "N0", "plain": ["x"], "recur_k": 0, "use_default": false}, {"attempts": 3, "body": {"kind": "const", "v": null}, "delay": 1, "exceptions": ["E0", "E2"], "fails": [], "has_additional": false, "is_rec": false, "marks": [], "mode": "coro", "name": "N1", "plain": [], "recur_k": 0, "use_default": false}, {"attempts": null, "body": {"kind": "prov"}, "delay": null, "exceptions": ["E2"], "fails": [], "has_additional": false, "is_rec": false, "marks": [["a", {"kind": "input", "src": 1}]], "mode": "coro", "name": "N2", "plain": [], "recur_k": 0, "use_default": false}, {"attempts": null, "body": {"kind": "prov"}, "delay": null, "exceptions": null, "fails": [], "has_additional": true, "is_rec": false, "marks": [], "mode": "coro", "name": "N3", "plain": [], "recur_k": 0, "use_default": false}, {"attempts": null, "body": {"kind": "prov"}, "delay": null, "exceptions": null, "fails": [], "has_additional": false, "is_rec": false, "marks": [["a", {"cands": [3], "kind": "oneof"}]], "mode": "coro", "name": "N4", "plain": [], "recur_k": 0, "use_default": false}, {"attempts": null, "body": {"kind": "const", "v": 0}, "delay": null, "exceptions": null, "fails": [], "has_additional": false, "is_rec": false, "marks": [], "mode": "coro", "name": "N5", "plain": [], "recur_k": 0, "use_default": false}, {"attempts": null, "body": {"kind": "prov"}, "delay": null, "exceptions": null, "fails": [], "has_additional": false, "is_rec": true, "marks": [["a", {"kind": "input", "src": 5}], ["b", {"cands": [2, 4], "kind": "oneof"}]], "mode": "coro", "name": "N6", "plain": [], "recur_k": 1, "use_default": false}, {"attempts": null, "body": {"kind": "prov"}, "delay": null, "exceptions": null, "fails": [], "has_additional": false, "is_rec": false, "marks": [["a", {"dest": 6, "kind": "rec", "max": 2, "start": 3}]], "mode": "coro", "name": "N7", "plain": [], "recur_k": 0, "use_default": true}], "output": 7}'''),
+    'P25_stale_recurrent_task_restarts_finished_subgraph': json.loads(r'''{"input": 0, "input_kwargs": {"x": "v"}, "nodes": [{"attempts": null, "body": {"kind": "prov"}, "delay": null, "exceptions": null, "fails": [], "has_additional": false, "is_rec": false, "marks": [], "mode": "coro", "name": "N0", "plain": ["x"], "recur_k": 0, "use_default": false}, {"attempts": null, "body": {"kind": "prov"}, "delay": null, "exceptions": null, "fails": [], "has_additional": true, "is_rec": true, "marks": [], "mode": "coro", "name": "N1", "plain": [], "recur_k": 2, "use_default": true}, {"attempts": null, "body": {"kind": "prov"}, "delay": null, "exceptions": null, "fails": [], "has_additional": false, "is_rec": false, "marks": [], "mode": "coro", "name": "N2", "plain": [], "recur_k": 0, "use_default": false}, {"attempts": null, "body": {"kind": "prov"}, "delay": null, "exceptions": null, "fails": [], "has_additional": false, "is_rec": false, "marks": [["a", {"dest": 1, "kind": "rec", "max": 1, "start": 1}]], "mode": "coro", "name": "N3", "plain": [], "recur_k": 0, "use_default": false}, {"attempts": null, "body": {"kind": "prov"}, "delay": null, "exceptions": null, "fails": [], "has_additional": false, "is_rec": false, "marks": [["a", {"kind": "input", "src": 3}], ["b", {"cands": [2], "kind": "oneof"}]], "mode": "coro", "name": "N4", "plain": [], "recur_k": 0, "use_default": true}, {"attempts": 1, "body": {"kind": "prov"}, "delay": 1, "exceptions": ["E2"], "fails": [[0, 1, "E1"], [0, 2, "E1"], [0, 3, "E1"]], "has_additional": false, "is_rec": false, "marks": [["a", {"cands": [4], "kind": "oneof"}], ["b", {"kind": "input", "src": 3}]], "mode": "coro", "name": "N5", "plain": [], "recur_k": 0, "use_default": false}, {"attempts": 3, "body": {"kind": "prov"}, "delay": 0, "exceptions": ["E0"], "fails": [], "has_additional": false, "is_rec": false, "marks": [["a", {"cands": [5], "kind": "oneof"}], ["b", {"kind": "input", "src": 3}], ["c", {"kind": "input", "src": 0}]], "mode": "coro", "name": "N6", "plain": [], "recur_k": 0, "use_default": false}, {"attempts": null, "body": {"kind": "prov"}, "delay": null, "exceptions": null, "fails": [[0, 1, "E1"]], "has_additional": false, "is_rec": false, "marks": [["a", {"cands": [6], "kind": "oneof"}]], "mode": "coro", "name": "N7", "plain": [], "recur_k": 0, "use_default": false}], "output": 7}'''),
+    'P26_oneof_in_rec_in_candidate_fails_on_restart': json.loads(r'''{"input": 0, "input_kwargs": {"x": ""}, "nodes": [{"attempts": null, "body": {"kind": "prov"}, "delay": null, "exceptions": null, "fails": [], "has_additional": false, "is_rec": false, "marks": [], "mode": "coro", "name": "N0", "plain": ["x"], "recur_k": 0, "use_default": false}, {"attempts": null, "body": {"kind": "prov"}, "delay": null, "exceptions": null, "fail_hash": [2, 0, "E2"], "fails": [], "has_additional": true, "is_rec": false, "marks": [["a", {"kind": "input", "src": 0}]], "mode": "coro", "name": "N1", "plain": [], "recur_k": 0, "use_default": false}, {"attempts": null, "body": {"kind": "prov"}, "delay": null, "exceptions": null, "fails": [], "has_additional": false, "is_rec": true, "marks": [["a", {"kind": "input", "src": 0}], ["b", {"cands": [1], "kind": "oneof"}]], "mode": "coro", "name": "N2", "plain": [], "recur_k": 3, "use_default": false}, {"attempts": null, "body": {"kind": "prov"}, "delay": null, "exceptions": null, "fails": [], "has_additional": true, "is_rec": false, "marks": [["a", {"dest": 2, "kind": "rec", "max": 3, "start": 1}], ["b", {"kind": "input", "src": 0}]], "mode": "coro", "name": "N3", "plain": [], "recur_k": 0, "use_default": true}, {"attempts": null, "body": {"kind": "const", "v": ""}, "delay": 0, "exceptions": ["E1"], "fails": [], "has_additional": false, "is_rec": true, "marks": [["a", {"kind": "input", "src": 3}]], "mode": "coro", "name": "N4", "plain": [], "recur_k": 4, "use_default": false}, {"attempts": null, "body": {"kind": "const", "v": 0}, "delay": null, "exceptions": null, "fails": [], "has_additional": false, "is_rec": false, "marks": [["a", {"dest": 4, "kind": "rec", "max": 3, "start": 3}], ["b", {"kind": "input", "src": 0}]], "mode": "coro", "name": "N5", "plain": [], "recur_k": 0, "use_default": false}, {"attempts": 2, "body": {"kind": "prov"}, "delay": null, "exceptions": ["E0", "E2"], "fails": [], "has_additional": false, "is_rec": false, "marks": [["a", {"cands": [5], "kind": "oneof"}], ["b", {"kind": "input", "src": 0}]], "mode": "coro", "name": "N6", "plain": [], "recur_k": 0, "use_default": false}], "output": 6}'''),
 }
 
 
@@ -312,6 +314,15 @@ MOTIFS['M33b_rec_scope_through_candidate_edge'] = spec([
 MOTIFS['M33c_rec_scope_through_candidate_edge_first_fails_on_restart'] = spec([
     node(0), node(1, [('a', inp(0))], has_additional=True), node(2, [('a', inp(1))], fails=[[1, 1, 'E0']]), node(3),
     node(4, [('a', one(2, 3))]), node(5, [('a', inp(4))], is_rec=True, recur_k=1), node(6, [('a', rec(1, 5, 2))])])
+
+# a reader outside a recurrent subgraph of a node that no iteration needs again (deadlock between 12d4978 and 35c5865)
+MOTIFS['M34_outside_reader_of_unneeded_scope_node'] = spec([
+    node(0), node(1, [('a', inp(0))], has_additional=True), node(2, [('a', inp(1))]), node(3, [('a', inp(2))]), node(4),
+    node(5, [('a', one(4, 3))], is_rec=True, recur_k=1), node(6, [('a', rec(1, 5, 2)), ('b', inp(2))])])
+MOTIFS['M34b_outside_reader_of_unneeded_case_ancestor'] = spec([
+    node(0), node(1, [('a', inp(0))], has_additional=True), node(2, [('a', inp(1))]), node(3, [('a', inp(2))]), node(4),
+    node(5, body=LAB), node(6, [('a', sw(5, [('l0', 4), ('l1', 3)]))], is_rec=True, recur_k=1),
+    node(7, [('a', rec(1, 6, 2)), ('b', inp(2))])])
 
 
 def _with_cb(sp, cb):
